@@ -46,7 +46,21 @@ def _z3_check(text, timeout_ms):
         return "proved", dt, None, ""
     if r == z3.sat:
         try:
-            md = _model_dict(s.model())
+            m = s.model()
+            # prefer a small model (helps concretisation for replay): bound integer constants and sequence lengths
+            s.push()
+            s.set("timeout", min(timeout_ms, 3000))
+            for d in m.decls():
+                if d.arity() == 0:
+                    c = d()
+                    if c.sort() == z3.IntSort():
+                        s.add(c >= -6, c <= 6)
+                    elif isinstance(c, z3.SeqRef):
+                        s.add(z3.Length(c) <= 4)
+            if s.check() == z3.sat:
+                m = s.model()
+            s.pop()
+            md = _model_dict(m)
         except Exception as e:  # pragma: no cover
             md = {"__error__": repr(e)}
         return "refuted", dt, md, ""
